@@ -90,6 +90,7 @@ def c14 (op : String) (a : Array Json) : R (Option Json) := do
       ("none_axes_as_empty", Json.bool Gen.npzNoneAxesAsEmpty),
       ("empty_axes_as_none", Json.bool Gen.npzEmptyAxesAsNone),
       ("reject_leading_data", Json.bool Gen.npzRejectLeadingData),
+      ("verify_crc", Json.bool Gen.npzVerifyCrc),
       ("getstate", strsJ Gen.cooGetState), ("setstate", strsJ Gen.cooSetState), ("setstate_reset", strsJ Gen.cooSetStateReset),
       ("struct", strsJ Gen.cooStruct), ("shape_dtype", Json.str Gen.cooShapeDtype), ("unbox", pairsJ Gen.cooUnbox),
       ("box_args", strsJ Gen.cooBoxArgs), ("box_kwargs", pairsJ Gen.cooBoxKwargs),
